@@ -26,7 +26,7 @@ fn main() {
         return;
     }
     if args[1] == "direct-child" {
-        direct::child(args.get(2).map(|s| s == "1").unwrap_or(false));
+        direct::child(args.get(2).map(String::as_str).unwrap_or("0"));
         return;
     }
     let stdin = std::io::stdin();
